@@ -107,4 +107,4 @@ func runCommit(c CommitCase) *vkit.Outcome {
 
 var propCommit = vkit.NewProp([]string{"C02", "C04", "C05"}, "c02streamcommit", genCommit, runCommit)
 
-func TestVerifC02StreamCommit(t *testing.T) { propCommit.Check(t) }
+func TestVerifC02StreamCommit(t *testing.T) { propCommit.CrashFile = true; propCommit.Check(t) }
